@@ -676,9 +676,9 @@ class Engine:
             if st1 is not st:
                 st.__dict__.update(st1.__dict__)
             return s.truthy(v, st)
-        if isinstance(b, VObj):
-            # membership in an opaque container: an uninterpreted function of (container, key)
-            return z3.Function("py_contains", PyObj, PyObj, B)(b.t, s.to_obj(a))
+        if isinstance(b, VObj) or (isinstance(b, VStr) and isinstance(a, VObj)):
+            # membership in an opaque container (or of an opaque object in a string): an uninterpreted function of (container, key)
+            return z3.Function("py_contains", PyObj, PyObj, B)(s.to_obj(b), s.to_obj(a))
         raise OutOfSubset("`in` of %r in %r" % (a, b))
 
     def ev_BinOp(s, n, st, out):
